@@ -13,6 +13,9 @@ A *plan* is a JSON-able dict — the abstract input of spec/VerifyProps.tla with
      "ui": {"exists","chain","hdr","key", <shape>} (ledger) , "pow": {"exists","chain","hdr", <shape>},
             <shape> = "sepc" (version separator: "dot" | member of SEP_TABLE | "na"), "len", "at", "m", "n",
             "tail": how the bytes deviate from the documented layout, content included (VerifyProps.tla)
+     "targets": [role, ...]           the file's `targets` list (roles: device, attestation, ui, signer /
+                                      ca, qe, att, quote); ui/pow "exists" = listed
+     "brk": [role, ...]               elements that do not verify under their certifier; "chain" follows
      "seed": int,                     everything left open by the classes is drawn from Random(seed)
      "variant": int (optional)}       ... except the listed alternatives (which foreign header, which link
                                       is corrupted how, how a file is malformed, ...): variant k takes the
@@ -402,9 +405,28 @@ def _grind_legacy_tail(plan, keys, rr):
 
 
 LEAF_BREAKS = ["sig_flip", "msg_flip", "tweak_flip", "tweak_remove", "sig_other_key"]
-SHARED_BREAKS = [("sig_flip", "attestation"), ("sig_flip", "device"), ("key_subst", "attestation"),
-                 ("msg_flip_key", "device"), ("sig_other_key", "attestation"), ("sig_other_key", "device"),
-                 ("msg_flip_other", "attestation"), ("sig_swap", ("ui", "signer"))]
+# one real corruption that makes exactly this element fail under its certifier
+ELEMENT_BREAKS = {"device": ["sig_other_key", "sig_flip", "msg_flip_other", "msg_flip_key"],
+                  "attestation": ["sig_other_key", "sig_flip", "msg_flip_other", "msg_flip_key"],
+                  "ui": LEAF_BREAKS, "signer": LEAF_BREAKS}
+LEDGER_ROLES = ("device", "attestation", "ui", "signer")
+SGX_ROLES = ("ca", "qe", "att", "quote")
+LEDGER_PATH = {"device": {"device"}, "attestation": {"device", "attestation"},
+               "ui": {"device", "attestation", "ui"}, "signer": {"device", "attestation", "signer"}}
+SGX_PATH = {"ca": {"ca"}, "qe": {"ca", "qe"}, "att": {"ca", "qe", "att"}, "quote": {"ca", "qe", "att", "quote"}}
+
+
+def sync(plan):
+    """exists / chain of the required targets follow from the targets list and the broken elements."""
+    led = plan["plat"] == "ledger"
+    order = LEDGER_ROLES if led else SGX_ROLES
+    path = LEDGER_PATH if led else SGX_PATH
+    plan["brk"] = [r for r in order if r in set(plan.get("brk", []))]
+    plan.setdefault("targets", ["ui", "signer"] if led else ["quote"])
+    for t, role in ((plan["ui"], "ui"), (plan["pow"], "signer")) if led else ((plan["pow"], "quote"),):
+        t["exists"] = "t" if role in plan["targets"] else "f"
+        t["chain"] = "broken" if path[role] & set(plan["brk"]) else "intact"
+    return plan
 
 
 def _ledger_chain(rr, ui_msg, pow_msg, with_ui=True, with_signer=True):
@@ -426,33 +448,28 @@ def _realise_ledger(plan, keys, directory, tag, rr, real):
     pow_msg = _pow_message(plan, keys, rr, sub)
     sub["ui_header"] = ui_msg[:12].hex()
     sub["ui_len"] = len(ui_msg)
-    other_platform = ui["exists"] == "f" and pw["exists"] == "f" and rr.random() < 0.25
+    other_platform = not plan["targets"] and rr.random() < 0.25
     drop_ui = ui["exists"] == "f" and rr.random() < 0.5
     drop_signer = pw["exists"] == "f" and rr.random() < 0.5
     ch = _ledger_chain(rr, ui_msg, pow_msg, not drop_ui, not drop_signer)
-    targets = [n for n, t in (("ui", ui), ("signer", pw)) if t["exists"] == "t"]
-    rr.shuffle(targets)
-    ch.cert["targets"] = targets
+    ch.cert["targets"] = list(plan["targets"])
     real.signed["ui"], real.signed["pow"] = ui_msg, pow_msg
     for e in ch.cert["elements"]:
         if e["name"] == "ui":
             real.signed["uitweak"] = bytes.fromhex(e["tweak"])
         if e["name"] == "signer":
             real.signed["powtweak"] = bytes.fromhex(e["tweak"])
-    # broken links
-    ub = ui["chain"] == "broken" and not drop_ui
-    sb = pw["chain"] == "broken" and not drop_signer
+    # broken links: one real corruption per element of plan["brk"]
+    brk = [r for r in plan["brk"] if not (r == "ui" and drop_ui) and not (r == "signer" and drop_signer)]
     breaks = []
-    if ub and sb and rr.random() < 0.6:
-        kind, where = _pick(rr, SHARED_BREAKS)
-        if kind == "sig_swap" and (drop_ui or drop_signer):
-            kind, where = "sig_flip", "attestation"
-        breaks.append((kind, where))
-    else:
-        if ub:
-            breaks.append((_pick(rr, LEAF_BREAKS), "ui"))
-        if sb:
-            breaks.append((_pick(rr, LEAF_BREAKS), "signer"))
+    if brk == ["ui", "signer"]:
+        how = _pick(rr, ("each", "key_subst", "each", "sig_swap"))
+        if how == "key_subst":          # the attestation element verifies, what it certified no longer does
+            breaks, brk = [("key_subst", "attestation")], []
+        elif how == "sig_swap":
+            breaks, brk = [("sig_swap", ("ui", "signer"))], []
+    for r in brk:
+        breaks.append((_pick(rr, ELEMENT_BREAKS[r]), r))
     for kind, where in breaks:
         ch.corrupt(kind, where, rr)
     sub["breaks"] = [[k, w] for k, w in breaks]
@@ -460,7 +477,10 @@ def _realise_ledger(plan, keys, directory, tag, rr, real):
     if plan["root"] == "right":
         root = ch.root_hex.upper() if rr.random() < 0.15 else ch.root_hex
     elif plan["root"] == "wrong":
-        root = _pick(rr, (ch.keys["x"].hex, certv1.new_key(rr).hex, None, ch.keys["device"].hex,
+        # (the stranger "x" may have re-signed the device element: under x as root that chain would be
+        #  genuinely valid, so x is not offered as the wrong root then)
+        stranger = certv1.new_key(rr).hex if ("sig_other_key", "device") in breaks else ch.keys["x"].hex
+        root = _pick(rr, (stranger, certv1.new_key(rr).hex, None, ch.keys["device"].hex,
                           ch.keys["attestation"].hex))
     elif plan["root"] == "malformed":
         root = _pick(rr, ("", "zz", "0x" + ch.root_hex, ch.root_hex[:-1], ch.root_hex[:-2] + "gg", "root"))
@@ -486,8 +506,10 @@ def _realise_ledger(plan, keys, directory, tag, rr, real):
     return cpath, root
 
 
-SGX_BREAKS = ["x509_expired", "x509_notyet", "x509_sig", "att_sig", "att_bind", "quote_sig", "quote_bind",
-              "custom_flip", "quote_flip", "reparent"]
+SGX_ELEMENT_BREAKS = {"ca": ["x509_sig", "x509_expired", "x509_notyet"],
+                      "qe": ["x509_sig", "x509_expired", "x509_notyet"],
+                      "att": ["att_sig", "att_bind", "reparent"],
+                      "quote": ["quote_sig", "quote_bind", "custom_flip", "quote_flip"]}
 
 
 def _expired_root(rr, mat, same_key=False):
@@ -501,16 +523,18 @@ def _realise_sgx(plan, keys, directory, tag, rr, real):
     sub = real.sub
     pw = plan["pow"]
     pow_msg = _pow_message(plan, keys, rr, sub)
-    depth = rr.choice((1, 2, 2, 2, 3))
+    named = set(plan["brk"]) | set(plan["targets"])
+    depth = rr.choice((2, 2, 3)) if named & {"ca", "qe"} else rr.choice((1, 2, 2, 2, 3))
     spec = certv2.default_spec(depth)
     spec["quote"]["custom_data"] = pow_msg
     spec["shuffle"] = rr.random() < 0.3
     spec["pem_newlines"] = rr.random() < 0.3
     post = None
-    if pw["chain"] == "broken":
-        kind = _pick(rr, SGX_BREAKS)
-        sub["breaks"] = [kind]
-        i = rr.randrange(depth)
+    sub["breaks"] = []
+    for role in plan["brk"]:
+        kind = _pick(rr, SGX_ELEMENT_BREAKS[role])
+        sub["breaks"].append([kind, role])
+        i = 0 if role == "ca" else -1
         if kind == "x509_expired":
             spec["x509"][i]["time"] = "Expired"
         elif kind == "x509_notyet":
@@ -536,21 +560,17 @@ def _realise_sgx(plan, keys, directory, tag, rr, real):
         cert = certv2.corrupt(cert, "quote", "message", rr.randrange(certv2.QUOTE_SIZE), 1 << rr.randrange(8))
     real.signed["pow"] = pow_msg
     real.signed["quote"] = mat["quote"]["message"]
-    if pw["exists"] == "f":
-        how = _pick(rr, ("notargets", "x509target", "atttarget", "ledgercert"))
-        sub["quote_absent"] = how
-        if how == "notargets":
-            cert["targets"] = []
-        elif how == "x509target":
-            cert["targets"] = [mat["names"]["x509"][-1]]
-        elif how == "atttarget":
-            cert["targets"] = [mat["names"]["attkey"]]
-        else:
-            k = certv1.new_key(rr)
-            ch = _ledger_chain(rr, pack_ui(UI_PREFIX + b"5.4", rr.randbytes(32), k.pub33, rr.randbytes(32),
-                                           b"\x00\x01"), pow_msg)
-            ch.cert["targets"] = ["ui", "signer"]
-            cert = ch.cert
+    names = {"ca": mat["names"]["x509"][0], "qe": mat["names"]["x509"][-1], "att": mat["names"]["attkey"],
+             "quote": mat["names"]["quote"]}
+    cert["targets"] = [names[r] for r in plan["targets"]]
+    sub["targets"] = cert["targets"]
+    if not plan["targets"] and rr.random() < 0.25:
+        sub["certificate"] = "version 1 (ledger)"
+        k = certv1.new_key(rr)
+        ch = _ledger_chain(rr, pack_ui(UI_PREFIX + b"5.4", rr.randbytes(32), k.pub33, rr.randbytes(32),
+                                       b"\x00\x01"), pow_msg)
+        ch.cert["targets"] = ["ui", "signer"]
+        cert = ch.cert
     # root of trust
     roots = mat["root_pem"]
     if plan["root"] == "right":
@@ -641,6 +661,13 @@ def realise(plan, directory, tag):
     for t in (plan["ui"], plan["pow"]):
         for k, v in PLAIN.items():
             t.setdefault(k, v)
+    if "targets" not in plan:           # plans written before the targets list / brk became explicit
+        led = plan["plat"] == "ledger"
+        plan["targets"] = [r for r, t in ((("ui", plan["ui"]), ("signer", plan["pow"])) if led
+                                          else (("quote", plan["pow"]),)) if t["exists"] == "t"]
+        plan["brk"] = [r for r, t in ((("ui", plan["ui"]), ("signer", plan["pow"])) if led
+                                      else (("quote", plan["pow"]),)) if t["chain"] == "broken"]
+    sync(plan)
     real = Real()
     real.plan = plan
     ids = {k for (_n, k) in plan["file"]["ents"]} | set(plan["mh"]["pre"]) | {1}
@@ -797,6 +824,7 @@ def abstract_of(plan):
                      "ents": [{"path": list(n.encode("utf-8")), "key": k} for (n, k) in plan["file"]["ents"]]},
             "btc": list(BTC_PATH.encode()),
             "mh": {"enc": plan["mh"]["enc"], "pre": list(plan["mh"]["pre"])},
+            "targets": list(plan["targets"]), "brk": list(plan["brk"]),
             "ui": {k: plan["ui"][k] for k in _UI_FIELDS} if plan["plat"] == "ledger" else dict(NA_UI),
             "pow": {k: plan["pow"][k] for k in _POW_FIELDS}}
 
@@ -873,6 +901,7 @@ def plan_from_behaviour(b, rng):
             "file": {"kind": inp["file"]["kind"],
                      "ents": [[names[tuple(e["path"])], e["key"]] for e in inp["file"]["ents"]]},
             "mh": {"enc": inp["mh"]["enc"], "pre": list(inp["mh"]["pre"])},
+            "targets": list(inp["targets"]), "brk": list(inp["brk"]),
             "ui": dict(inp["ui"]), "pow": dict(inp["pow"]), "seed": rng.getrandbits(48)}
     for t in (plan["ui"], plan["pow"]):
         if t.get("m") == "randn":               # "many arbitrary bytes": how many is open
@@ -908,10 +937,11 @@ def random_plan(rng):
             "ui": dict(PLAIN, exists="t", chain="intact", hdr="ok", key=btc[0] if btc else 1),
             "pow": dict(PLAIN, exists="t", chain="intact",
                         hdr=rng.choice(("current", "current", "legacy")) if plat == "ledger" else "current"),
+            "targets": ["ui", "signer"] if plat == "ledger" else ["quote"], "brk": [],
             "seed": rng.getrandbits(48)}
     for _ in range(rng.choice((0, 0, 1, 1, 1, 2, 2, 3, 5))):
         deviate(plan, rng)
-    return plan
+    return sync(plan)
 
 
 def _deviate_len(t, rng, body):
@@ -929,10 +959,11 @@ def deviate(plan, rng, sep=True):
     f = plan["file"]
     ents = f["ents"]
     nk = max([k for (_n, k) in ents] + plan["mh"]["pre"] + [plan["ui"]["key"], 1])
-    dims = ["args", "root", "certfile", "file", "file", "file", "mh", "mh", "pow.exists", "pow.chain",
-            "pow.hdr", "pow.len", "pow.len", "pow.tail"]
+    dims = ["args", "root", "certfile", "file", "file", "file", "mh", "mh", "unlist", "brk", "brk", "targets",
+            "targets", "pow.hdr", "pow.len", "pow.len", "pow.tail"]
     if plan["plat"] == "ledger":
-        dims += ["ui.exists", "ui.chain", "ui.hdr", "ui.key", "ui.len", "ui.tail"]
+        dims += ["ui.hdr", "ui.key", "ui.len", "ui.tail"]
+    roles = LEDGER_ROLES if plan["plat"] == "ledger" else SGX_ROLES
     d = rng.choice(dims)
     if d == "args":
         plan["args"] = rng.choice(("nocert", "nopub"))
@@ -986,10 +1017,25 @@ def deviate(plan, rng, sep=True):
             rng.shuffle(plan["mh"]["pre"])
         elif m == "subset" and len(plan["mh"]["pre"]) > 1:
             del plan["mh"]["pre"][rng.randrange(len(plan["mh"]["pre"]))]
-    elif d == "pow.exists":
-        plan["pow"]["exists"] = "f"
-    elif d == "pow.chain":
-        plan["pow"]["chain"] = "broken"
+    elif d == "unlist":
+        if plan["targets"]:
+            gone = rng.choice(plan["targets"])
+            plan["targets"] = [r for r in plan["targets"] if r != gone]
+    elif d == "brk":
+        plan["brk"] = list(set(plan["brk"]) | {rng.choice(roles)})
+    elif d == "targets":
+        tl = plan["targets"]
+        m = rng.choice(("shuffle", "before", "after", "insert", "dup"))
+        if m == "shuffle":
+            rng.shuffle(tl)
+        elif m == "before":
+            tl.insert(0, rng.choice(roles[:-1] if plan["plat"] == "sgx" else roles[:2]))
+        elif m == "after":
+            tl.append(rng.choice(roles[:-1] if plan["plat"] == "sgx" else roles[:2]))
+        elif m == "insert":
+            tl.insert(rng.randrange(len(tl) + 1), rng.choice(roles))
+        elif tl:
+            tl.insert(rng.randrange(len(tl) + 1), rng.choice(tl))
     elif d == "pow.hdr":
         cur = plan["pow"]["hdr"]
         if cur not in ("current", "legacy"):
@@ -1011,10 +1057,6 @@ def deviate(plan, rng, sep=True):
         if t["len"] == "exact" and t["tail"] == "any":
             leg = d == "pow.tail" and t["hdr"] in ("legacy", "sepleg")
             t["tail"] = rng.choice(TAIL1 if leg else list(EXT_TABLE))
-    elif d == "ui.exists":
-        plan["ui"]["exists"] = "f"
-    elif d == "ui.chain":
-        plan["ui"]["chain"] = "broken"
     elif d == "ui.hdr":
         if plan["ui"]["hdr"] != "ok":
             return
